@@ -190,6 +190,13 @@ def detail_of(ob, at, u, fname):
         if kinds and kinds <= {"ret", "jmp", "jnz", "hlt"}:
             return "phi-source-terminated-by-jump"
         return "other"
+    if ob == "DefDominatesUse":
+        # a variably modified typedef whose size temporary is computed lazily at its first use instead of where the
+        # typedef is reached (the type object, and with it the cached size value, is shared by all its users)
+        src = u.src if isinstance(u.src, str) else ""
+        if re.search(r"typedef\s[^;{}]*\[[^\]]*[A-Za-z_][^\]]*\]", src):
+            return "vm-typedef-size-lazy"
+        return ""
     if ob == "InstrClassOK":
         return ",".join(sorted(at)[:3])
     return ""
@@ -337,6 +344,16 @@ PINNED = [   # the minimal failing input of every known finding (so that the fin
     ("duplicate-label", "int x; void f(void){ l: x=1; if (x) goto l; l: x=2; }\n"),
     ("noreturn-arm", "_Noreturn void die(void); int f(int c){ return c ? (die(), 1) : 2; }\n"),
     ("dead-code-logic", "int f(int a){ return 1; if (0 && a) return 2; return 3; }\n"),
+    # _Noreturn calls as the tail of the right operand of || / &&, as arms of ?: and in comma expressions
+    ("noreturn-operand", "_Noreturn void die(const char *); _Noreturn int usage(void);\n"
+                         "int last(int *p, int n) { ((p && n > 0) || (die(\"p\"), 0)); return p[n - 1]; }\n"
+                         "int parse(int argc) { int ok; ok = argc > 1 && usage(); ok = ok || usage(); return ok ? usage() : (die(\"x\"), argc); }\n"
+                         "int both(int a, double d) { return (a || (die(\"a\"), d)) && (a, usage()); }\n"),
+    # variably modified typedef of an outer block, first used on one path, used again on a path bypassing it
+    ("vm-typedef", "void g(int n, int c) { typedef int T[n]; if (c) { T a; a[0]=1; } else { T b; b[0]=2; } }\n"
+                   "int h(int n, int m, int c) { typedef int T[n][m]; int r = 0; while (c--) { T a; a[0][0] = c; r += a[0][0]; } { T b; r += (int)sizeof b; } return r; }\n"
+                   "int k(int n, int c, void *v) { typedef int (*P)[n]; switch (c) { case 1: { P q = v; return (int)sizeof *q; } default: { P r = v; return (*r)[0]; } } }\n"
+                   "int l(int n, int m, int c, void *v) { typedef int (*P)[n][m]; for (int i = 0; i < c; i++) { P q = v; c -= (int)sizeof **q; } { P r = v; return (int)sizeof *r; } }\n"),
     # wide arrays filled exactly by a wide literal (DataSize through the H6-lite sizes): top level, member, 2-D row
     ("wide-exact-fit", "unsigned short a[2] = u\"ab\"; unsigned b[1] = U\"a\"; struct { unsigned short s[2]; char c; } c = {u\"ab\", 1};\n"
                        "unsigned short d[2][2] = {u\"ab\", u\"c\"}; unsigned e[2][1] = {U\"a\", U\"b\"}; unsigned short f[3] = u\"ab\";\n"
@@ -748,6 +765,7 @@ struct B { int bf : 3; unsigned ub : 5; int : 0; long lf : 33; };
 union U { int i; double d; char c; };
 struct O { struct S in; union U u; short h; };
 _Noreturn void die(void);
+_Noreturn int ndie(void);
 int vx(int, ...);
 /*HELPERS*/
 /*GLOBALS*/
